@@ -234,10 +234,31 @@ def unify_types(a, b):
     return None
 
 
+def box_any(v):
+    """any value used where the contract says ANY (opaque): injected by an uninterpreted boxing function"""
+    from .types import AnySort
+    if isinstance(v, SV):
+        if v.t == ANY:
+            return v.z
+        f = z3.Function('box[%s]' % v.t.key(), sort_of(v.t), AnySort)
+        return f(v.z)
+    if v is MNONE:
+        return z3.Const('any.None', AnySort)
+    try:
+        t = type_of(v)
+    except Unsupported:
+        t = None
+    if t is not None and t != NONE:
+        return box_any(SV(t, pack(v, t)))
+    return z3.Const(fresh_name('any'), AnySort)
+
+
 def pack(v, t):
     """z3 term of sort_of(t) for value v (coercing meta values)."""
     if isinstance(v, MU):
         raise Unsupported('maybe-unbound value used without check')
+    if t == ANY:
+        return box_any(v)
     if isinstance(v, SV):
         if v.t == t:
             return v.z
